@@ -755,17 +755,16 @@ Proof.
   destruct s; [|cbn in H; lia]. cbn [prodn]. unfold zlen. lia.
 Qed.
 
-Lemma take_list_spec : forall n l, (npdepth (VL l) <= 1)%nat ->
+Lemma take_list_spec : forall n l,
   m_take (VI n) (VL l) = Ok (VL (s_take VU n l)).
 Proof.
-  intros n l H1. unfold m_take. cbn [as_members]. rewrite (array_size_1d l H1). cbn [rejoin].
+  intros n l. unfold m_take. cbn [as_members rejoin]. cbv zeta.
   unfold s_take.
   destruct (zlen l =? 0) eqn:E0.
   - apply Z.eqb_eq in E0. unfold zlen in E0. destruct l; [reflexivity|cbn in E0; lia].
   - apply Z.eqb_neq in E0. assert (Lpos : 0 < zlen l) by (unfold zlen in *; lia).
     destruct (zlen l <? Z.abs n) eqn:Ebig.
     + apply Z.ltb_lt in Ebig.
-      assert (Hd : (1 <? npdepth (VL l))%nat = false) by (apply Nat.ltb_ge; exact H1). rewrite Hd.
       set (q := Z.abs n / zlen l).
       pose proof (Z.div_mod (Z.abs n) (zlen l) ltac:(lia)) as Hdm.
       pose proof (Z.mod_pos_bound (Z.abs n) (zlen l) Lpos) as Hmb.
@@ -849,16 +848,14 @@ Proof. intros [|c s]; cbn; lia. Qed.
 Lemma take_string_via_list : forall n s,
   m_take (VI n) (VS s) = match m_take (VI n) (VL (chars s)) with Ok (VL r) => joined r | _ => Err end.
 Proof.
-  intros n s. unfold m_take. cbn [as_members]. rewrite (array_size_1d _ (npdepth_chars s)).
-  assert (Hd : (1 <? npdepth (VL (chars s)))%nat = false) by (apply Nat.ltb_ge; apply npdepth_chars).
-  rewrite Hd. cbn [npdepth Nat.ltb Nat.leb rejoin].
+  intros n s. unfold m_take. cbn [as_members rejoin]. cbv zeta.
   destruct (zlen (chars s) =? 0); [reflexivity|].
   destruct (zlen (chars s) <? Z.abs n); reflexivity.
 Qed.
 
 Lemma take_string_spec : forall n s, m_take (VI n) (VS s) = Ok (VS (s_take 0 n s)).
 Proof.
-  intros n s. rewrite take_string_via_list. rewrite take_list_spec by apply npdepth_chars.
+  intros n s. rewrite take_string_via_list. rewrite take_list_spec.
   unfold s_take. rewrite zlen_chars. destruct (zlen s =? 0) eqn:E0; [reflexivity|].
   apply Z.eqb_neq in E0. assert (0 < zlen s) by (unfold zlen in *; lia).
   rewrite tab_chars; [apply joined_chars|].
@@ -962,19 +959,6 @@ Section Instances.
     apply (np2_rec_spec sc_div sc_div_py (fun y => is_num y && negb (is_zero y)) div_py); try assumption. apply fuel2_enough.
   Qed.
 
-  Hypothesis Ho : no_obj a b = true.
-
-  Lemma no_obj_l : is_obj a = false.
-  Proof. unfold no_obj in Ho. apply andb_true_iff in Ho. destruct Ho as [H _]. apply negb_true_iff in H. exact H. Qed.
-  Lemma no_obj_r : is_obj b = false.
-  Proof. unfold no_obj in Ho. apply andb_true_iff in Ho. destruct Ho as [_ H]. apply negb_true_iff in H. exact H. Qed.
-
-  Lemma min_spec : m_min a b = s2 sc_min a b.
-  Proof. unfold m_min, fuel2. apply np2_rect_spec; try assumption; [apply no_obj_l|apply no_obj_r]. Qed.
-  Lemma max_spec : m_max a b = s2 sc_max a b.
-  Proof. unfold m_max, fuel2. apply np2_rect_spec; try assumption; [apply no_obj_l|apply no_obj_r]. Qed.
-  Lemma rem_spec : m_rem a b = s2 sc_fmod a b.
-  Proof. unfold m_rem, fuel2. apply np2_rect_spec; try assumption; [apply no_obj_l|apply no_obj_r]. Qed.
 End Instances.
 
 (* vec_fn2 with two leaf functions that agree on numeric operands *)
@@ -1037,6 +1021,21 @@ Section VecInstances.
     intros Hs. unfold m_more. rewrite (vec2_ext_num (leaf2n sc_more) (leaf2 sc_more) (leaf2n_num sc_more)) by assumption.
     apply vec2_spec; try assumption. apply fuel2_enough.
   Qed.
+  Lemma min_spec : s2 sc_min a b = Ok v -> m_min a b = Ok v.
+  Proof.
+    intros Hs. unfold m_min. rewrite (vec2_ext_num (leaf2n sc_min) (leaf2 sc_min) (leaf2n_num sc_min)) by assumption.
+    apply vec2_spec; try assumption. apply fuel2_enough.
+  Qed.
+  Lemma max_spec : s2 sc_max a b = Ok v -> m_max a b = Ok v.
+  Proof.
+    intros Hs. unfold m_max. rewrite (vec2_ext_num (leaf2n sc_max) (leaf2 sc_max) (leaf2n_num sc_max)) by assumption.
+    apply vec2_spec; try assumption. apply fuel2_enough.
+  Qed.
+  Lemma rem_spec : s2 sc_fmod a b = Ok v -> m_rem a b = Ok v.
+  Proof.
+    intros Hs. unfold m_rem. rewrite (vec2_ext_num (leaf2n sc_fmod) (leaf2 sc_fmod) (leaf2n_num sc_fmod)) by assumption.
+    apply vec2_spec; try assumption. apply fuel2_enough.
+  Qed.
   Lemma idiv_spec : nonzero_tree b = true -> s2 sc_idiv a b = Ok v -> m_idiv a b = Ok v.
   Proof.
     intros Hz Hs. unfold m_idiv.
@@ -1089,8 +1088,12 @@ Proof.
       try (inversion H; auto; fail).
 Qed.
 
-Lemma kind_floor_int : forall a r, sc_floor a = Ok r -> exists z, r = VI z.
-Proof. intros a r H. destruct a; cbn in H; try discriminate; inversion H; eexists; reflexivity. Qed.
+Lemma kind_floor_int : forall a r, floor_fits a = true -> sc_floor a = Ok r -> exists z, r = VI z.
+Proof.
+  intros a r Hf H. destruct a as [z|x| | | | |]; try discriminate Hf.
+  - inversion H. eexists; reflexivity.
+  - cbn [sc_floor floor_fits] in *. destruct (rfloor_exact x) as [z|]; [|discriminate Hf]. rewrite Hf in H. inversion H. eexists; reflexivity.
+Qed.
 
 (* ------------------------------------------------------------------ the dispatch tables the model was written against *)
 Local Open Scope string_scope.
@@ -1176,13 +1179,13 @@ Lemma m_monad_reverse : forall a, canonical a = true -> m_monad "eval_monad_reve
 Proof. intros a H. unfold m_monad. rewrite H. reflexivity. Qed.
 
 Lemma take_holds : forall n b, canonical b = true ->
-  dom_dyad "eval_dyad_take" (VI n) b = true -> (npdepth b <= 1)%nat ->
+  dom_dyad "eval_dyad_take" (VI n) b = true ->
   m_dyad "eval_dyad_take" (VI n) b = s_dyad "eval_dyad_take" (VI n) b.
 Proof.
-  intros n b Hc Hd H1. rewrite m_dyad_take by exact Hc.
+  intros n b Hc Hd. rewrite m_dyad_take by exact Hc.
   destruct b as [z|r|c|s|s|l|]; try (cbn in Hd; discriminate).
   - rewrite take_string_spec. reflexivity.
-  - rewrite take_list_spec by exact H1. reflexivity.
+  - rewrite take_list_spec. reflexivity.
 Qed.
 
 Lemma drop_holds : forall a b, canonical a && canonical b = true ->
@@ -1243,37 +1246,9 @@ Lemma refuted_homogenise : refutes_m "homogenise" "eval_monad_first" (VL [VI 1; 
 Proof. vm_compute. reflexivity. Qed.
 Lemma refuted_broadcast : refutes_d "broadcast" "eval_dyad_add" (VL [VI 1; VI 2]) m22 = true.
 Proof. vm_compute. reflexivity. Qed.
-Lemma refuted_no_object_loop : refutes_d "no-object-loop" "eval_dyad_minimum" (VL [VI 1; VL [VI 2; VI 3]]) (VL [VI 1; VL [VI 2; VI 3]]) = true.
-Proof. vm_compute. reflexivity. Qed.
-Lemma refuted_take_matrix : refutes_d "take-matrix" "eval_dyad_take" (VI 3) m22 = true.
-Proof. vm_compute. reflexivity. Qed.
-Lemma refuted_first_of_string : refutes_m "first-of-string" "eval_monad_first" (VS [97; 98; 99]) = true.
-Proof. vm_compute. reflexivity. Qed.
-Lemma refuted_floor_overflow : refutes_m "floor-overflow" "eval_monad_floor" (VR (real_of_bits 6103021453049119613)) = true.
-Proof. vm_compute. reflexivity. Qed.
-Lemma refuted_reshape_char_0 : refutes_d "reshape-char-0" "eval_dyad_reshape" (VI 0) (VC 97) = true.
-Proof. vm_compute. reflexivity. Qed.
 Lemma refuted_reshape_nested : refutes_d "reshape-nested" "eval_dyad_reshape" (VL [VI 2]) (VL [VL [VI 1; VI 2; VI 3]]) = true.
 Proof. vm_compute. reflexivity. Qed.
-Lemma refuted_find_nested : refutes_d "find-nested" "eval_dyad_find" (VL [VL [VI 1; VI 2]; VL [VI 1; VI 1]]) (VI 1) = true.
-Proof. vm_compute. reflexivity. Qed.
-Lemma refuted_find_symbol : refutes_d "find-symbol" "eval_dyad_find" (VL [VY [97]; VY [98]]) (VY [97]) = true.
-Proof. vm_compute. reflexivity. Qed.
 Lemma refuted_join_ragged : refutes_d "join-ragged" "eval_dyad_join" m22 a223 = true.
-Proof. vm_compute. reflexivity. Qed.
-Lemma refuted_char_of_empty : refutes_m "char-of-empty" "eval_monad_char" (VL []) = true.
-Proof. vm_compute. reflexivity. Qed.
-Lemma refuted_expand_empty : refutes_m "expand-empty" "eval_monad_expand_where" (VL []) = true.
-Proof. vm_compute. reflexivity. Qed.
-Lemma refuted_shape_ragged : refutes_m "shape-ragged" "eval_monad_shape" (VL [VI 1; VL [VI 2]]) = true.
-Proof. vm_compute. reflexivity. Qed.
-Lemma refuted_shape_strlike_member : refutes_m "shape-strlike-member" "eval_monad_shape" (VL [VC 97; VC 98]) = true.
-Proof. vm_compute. reflexivity. Qed.
-Lemma refuted_group_sorted_order : refutes_m "group-sorted-order" "eval_monad_groupby" (VS [104; 101; 108; 108; 111; 32; 102; 111; 111]) = true.
-Proof. vm_compute. reflexivity. Qed.
-Lemma refuted_group_non_numeric : refutes_m "group-non-numeric" "eval_monad_groupby" (VL [VI 1; VS [97]]) = true.
-Proof. vm_compute. reflexivity. Qed.
-Lemma refuted_range_string_sorted : refutes_m "range-string-sorted" "eval_monad_range" (VS [104; 101; 108; 108; 111]) = true.
 Proof. vm_compute. reflexivity. Qed.
 Lemma match_ints_without_fix : isclose_gen false (VI 100000) (VI 100001) = true /\ s_same (VI 100000) (VI 100001) = false.
 Proof. vm_compute. split; reflexivity. Qed.
@@ -1752,18 +1727,34 @@ Proof.
   cbn [negb]. unfold m_negate. apply vec1_spec. lia.
 Qed.
 
+Lemma forall_leaves_all : forall p a, forall_leaves p a = all_leaves p a.
+Proof.
+  intros p. induction a using val_ind'; try reflexivity.
+  cbn [forall_leaves all_leaves]. apply forallb_ext_in. rewrite Forall_forall in H. exact H.
+Qed.
+
+Lemma vec1_ext : forall (f g : val -> res) (p : val -> bool),
+  (forall x, p x = true -> f x = g x) -> (forall l x, p (VL l) = true -> In x l -> p x = true) ->
+  forall fuel a, p a = true -> vec1 fuel f a = vec1 fuel g a.
+Proof.
+  intros f g p Hfg Hp. induction fuel as [|f' IH]; intros a Ha; [reflexivity|].
+  destruct a as [z|r|c|s|s|l|]; try (cbn [vec1]; apply Hfg; exact Ha).
+  cbn [vec1]. destruct (is_obj (VL l)); [|apply Hfg; exact Ha].
+  f_equal. apply rmap_ext. intros x Hx. pose proof (Hp l x Ha Hx) as Px.
+  destruct x as [z|r|c|s|s|[|y l']|]; try (apply Hfg; exact Px). apply IH. exact Px.
+Qed.
+
+(* Floor when every leaf fits the integer range (otherwise NumPy keeps the whole array real: class homogenise) *)
 Lemma floor_holds : forall a, canonical a = true -> all_leaves floor_fits a = true ->
   m_monad "eval_monad_floor" a = s_monad "eval_monad_floor" a.
 Proof.
-  intros a Hc Hf. unfold m_monad. rewrite Hc. change (s_monad "eval_monad_floor" a) with (s1 s_floor a).
-  cbn [negb]. unfold m_floor. rewrite vec1_spec by lia.
-  apply (s1_ext floor_fits); [|exact Hf].
-  intros x _ Hx. destruct x as [z|r| | | | |]; try discriminate Hx; try reflexivity.
-  cbn [sc_floor s_floor]. unfold floor_fits in Hx. unfold rfloor.
-  destruct (rfloor_exact r) as [z|]; [|discriminate Hx]. rewrite Hx.
-  unfold clip64. apply andb_true_iff in Hx. destruct Hx as [H1 H2]. apply Z.leb_le in H1. apply Z.ltb_lt in H2.
-  replace (z <? - two63) with false by (symmetry; apply Z.ltb_ge; lia).
-  replace (two63 <=? z) with false by (symmetry; apply Z.leb_gt; lia). reflexivity.
+  intros a Hc Hf. unfold m_monad. rewrite Hc. change (s_monad "eval_monad_floor" a) with (s1 sc_floor a).
+  cbn [negb]. unfold m_floor.
+  rewrite (vec1_ext floor_leaf (leaf1 sc_floor) (all_leaves floor_fits)).
+  - apply vec1_spec. lia.
+  - intros x Hx. unfold floor_leaf. rewrite forall_leaves_all, Hx. reflexivity.
+  - intros l x Hl Hx. eapply all_leaves_in; eassumption.
+  - exact Hf.
 Qed.
 
 Lemma reciprocal_holds : forall a, canonical a = true -> m_monad "eval_monad_reciprocal" a = s_monad "eval_monad_reciprocal" a.
@@ -1783,11 +1774,10 @@ Lemma size_holds : forall a, canonical a = true -> dom_monad "eval_monad_size" a
   m_monad "eval_monad_size" a = s_monad "eval_monad_size" a.
 Proof. intros a Hc Hd. unfold m_monad. rewrite Hc. destruct a; try reflexivity; discriminate Hd. Qed.
 
-Lemma first_holds : forall a, canonical a = true -> (forall c s, a <> VS (c :: s)) ->
+Lemma first_holds : forall a, canonical a = true ->
   m_monad "eval_monad_first" a = s_monad "eval_monad_first" a.
 Proof.
-  intros a Hc Hn. unfold m_monad. rewrite Hc. destruct a as [z|r|c|[|c s]|s|[|x l]|]; try reflexivity.
-  exfalso. apply (Hn c s). reflexivity.
+  intros a Hc. unfold m_monad. rewrite Hc. destruct a as [z|r|c|[|c s]|s|[|x l]|]; reflexivity.
 Qed.
 
 Lemma enumerate_holds : forall a, canonical a = true -> m_monad "eval_monad_enumerate" a = s_monad "eval_monad_enumerate" a.
@@ -1988,36 +1978,6 @@ Proof.
 Qed.
 
 (* ------------------------------------------------------------------ Take in the form dom -> ~K -> model = spec *)
-Lemma array_size_ge_len : forall l sh, rshape (VL l) = Some sh -> array_size (VL l) <> 0 -> zlen l <= array_size (VL l).
-Proof.
-  intros l sh R Hnz. unfold array_size in *. rewrite R in *.
-  destruct (rshape_list _ _ R) as [s [E _]]. subst sh. cbn [prodn] in *. unfold zlen.
-  destruct (prodn s) as [|k]; [rewrite Nat.mul_0_r in Hnz; cbn in Hnz; congruence|]. nia.
-Qed.
-
-Lemma take_slice_spec : forall n l, array_size (VL l) <> 0 -> Z.abs n <= zlen l -> zlen l <= array_size (VL l) ->
-  m_take (VI n) (VL l) = Ok (VL (s_take VU n l)).
-Proof.
-  intros n l Hnz Hle Hge. unfold m_take. cbn [as_members rejoin].
-  replace (array_size (VL l) =? 0) with false by (symmetry; apply Z.eqb_neq; exact Hnz).
-  replace (array_size (VL l) <? Z.abs n) with false by (symmetry; apply Z.ltb_ge; lia).
-  unfold s_take.
-  assert (Lpos : 0 < zlen l).
-  { destruct l as [|x l']; [cbn in Hnz; congruence|unfold zlen; cbn; lia]. }
-  replace (zlen l =? 0) with false by (symmetry; apply Z.eqb_neq; lia).
-  f_equal. f_equal.
-  destruct (n <? 0) eqn:Eneg.
-  - apply Z.ltb_lt in Eneg. unfold py_last. replace (Z.min n 0) with n by lia.
-    apply (Q_final VU l).
-    + apply (Q_cong VU l (0 + Z.of_nat (Z.to_nat (zlen l - Z.abs n))) n (-1)); [lia|].
-      apply Q_skipn. apply Q_base.
-    + rewrite skipn_length. unfold zlen in *. lia.
-  - apply Z.ltb_ge in Eneg. unfold py_head. replace (Z.min n 0) with 0 by lia.
-    apply (Q_final VU l).
-    + apply Q_firstn. apply Q_base.
-    + rewrite firstn_length. unfold zlen in *. lia.
-Qed.
-
 Local Open Scope string_scope.
 Local Open Scope Z_scope.
 
@@ -2025,28 +1985,11 @@ Lemma take_holds_outside_K : forall a b, canonical a && canonical b = true ->
   dom_dyad "eval_dyad_take" a b = true -> k_dyad "eval_dyad_take" a b = "" ->
   m_dyad "eval_dyad_take" a b = s_dyad "eval_dyad_take" a b.
 Proof.
-  intros a b Hc Hd Hk. rewrite m_dyad_take by exact Hc.
+  intros a b Hc Hd Hk.
   destruct a as [n| | | | | |]; try (cbn in Hd; discriminate Hd).
-  destruct b as [z|r|c|s|s|l|]; try (cbn in Hd; discriminate Hd).
-  - rewrite take_string_spec. reflexivity.
-  - change (s_dyad "eval_dyad_take" (VI n) (VL l)) with (Ok (VL (s_take VU n l))).
-    apply andb_true_iff in Hc. destruct Hc as [_ Hcb].
-    change (k_dyad "eval_dyad_take" (VI n) (VL l)) with
-      (if negb (is_normal (VI n) && is_normal (VL l)) then "homogenise"
-       else if ndim_gt1 (VL l) && ((zlen (members (VL l)) <? Z.abs n) || (array_size (VL l) =? 0)) then "take-matrix" else "") in Hk.
-    destruct (negb (is_normal (VI n) && is_normal (VL l))); [discriminate Hk|].
-    destruct (ndim_gt1 (VL l) && ((zlen (members (VL l)) <? Z.abs n) || (array_size (VL l) =? 0))) eqn:EK; [discriminate Hk|].
-    destruct (rshape (VL l)) as [sh|] eqn:R.
-    + destruct (Nat.leb (npdepth (VL l)) 1) eqn:E1.
-      * apply Nat.leb_le in E1. apply take_list_spec. exact E1.
-      * apply Nat.leb_gt in E1.
-        assert (G : ndim_gt1 (VL l) = true).
-        { unfold ndim_gt1. apply orb_true_iff. left. apply Nat.ltb_lt. exact E1. }
-        rewrite G in EK. cbn [andb members] in EK. apply orb_false_iff in EK. destruct EK as [K1 K2].
-        apply Z.ltb_ge in K1. apply Z.eqb_neq in K2.
-        apply take_slice_spec; [exact K2|exact K1|eapply array_size_ge_len; eassumption].
-    + apply take_list_spec. rewrite (npdepth_obj _ R). lia.
+  apply andb_true_iff in Hc. destruct Hc as [_ Hcb]. apply take_holds; assumption.
 Qed.
+
 
 (* ------------------------------------------------------------------ Match: kg_equal depends only on the abstract value *)
 Lemma list_eqb_app : forall {A} (eq : A -> A -> bool) a1 b1 a2 b2, List.length a1 = List.length b1 ->
